@@ -5,7 +5,7 @@
 From Coq Require Import List Ascii String NArith ZArith Bool Lia.
 Import ListNotations.
 Require Import Dec Header.
-Require Import Bytes MsgType MsgTypeFwd TablesLift KV Trim Parser ParseLine HeaderIdx HeaderIdxProofs ToMap.
+Require Import Bytes MsgType MsgTypeFwd TablesLift KV Trim Parser ParseLine HeaderIdx HeaderIdxProofs ToMap TrimPad.
 Open Scope N_scope.
 
 (* every seconds value in [0,2^34), milliseconds 000-999, sequence in uint32, ANY text
@@ -51,6 +51,17 @@ Theorem C04_header_accepted_only_if_wellformed : forall line h, parse_audit_head
     ~ In "("%char pre /\ ~ In "."%char a /\ ~ In ":"%char b /\ ~ In ")"%char c /\
     parse_int10_64 a = HOk (h_sec h) /\ parse_int10_64 b = HOk (h_msec h) /\ parse_uint10 32 c = HOk (h_seq h).
 Proof. exact header_accepted_only_if_wellformed. Qed.
+(* padding: ASCII white space (blank, tab, newline, ...) before and after a message that begins with "a" (as in audit(...)) and does
+   not end in a white-space rune changes nothing - Parse sees the trimmed message, so type, time, sequence and RawData are the same *)
+Theorem C04_padding_ignored : forall t p1 tl p2,
+  forallb ascii_ws p1 = true -> forallb ascii_ws p2 = true -> drop_space_rune_rev (rev ("a"%char :: tl)) = None ->
+  parse t (p1 ++ ("a"%char :: tl) ++ p2)%list = parse t ("a"%char :: tl).
+Proof.
+  intros t p1 tl p2 H1 H2 He. unfold parse.
+  rewrite (trim_space_padded p1 ("a"%char :: tl) p2 H1 H2); [|split; [reflexivity|exact He]|discriminate|reflexivity].
+  rewrite (trim_space_fixed ("a"%char :: tl)); [reflexivity|split; [reflexivity|exact He]|discriminate].
+Qed.
+
 (* ToMapStr: the four header keys carry the header's values whatever the body held - fields named record_type, @timestamp,
    sequence or raw_msg included - and every other field is reported as Data() gave it *)
 Theorem C04_to_map_str_header_keys : forall rt ts sq raw data,
@@ -63,6 +74,7 @@ Theorem C04_to_map_str_keeps_data : forall rt ts sq raw data k v,
   mget k (to_map_str rt ts sq raw data) = Some v.
 Proof. exact to_map_str_keeps_data. Qed.
 
+Print Assumptions C04_padding_ignored.
 Print Assumptions C04_header_accepted_only_if_wellformed.
 Print Assumptions C04_to_map_str_header_keys.
 Print Assumptions C04_to_map_str_keeps_data.
